@@ -2,6 +2,7 @@
 import datetime
 import os
 import random
+import re
 import zoneinfo
 
 from .. import model, runner
@@ -32,15 +33,17 @@ def to_ts(naive, tz):
 
 def render_literal(rng, t, prec):
     sep = rng.choice(["-", "-", "-", ":"])
-    date = "%04d%s%02d%s%02d" % (t.year, sep, t.month, sep, t.day)
+    # one-digit months, days, hours ... may be written without the leading zero (`2023-1-05`, '2023-01-05 7:03')
+    f = lambda: rng.choice(["%02d", "%02d", "%02d", "%d"])
+    date = ("%04d%s" + f() + "%s" + f()) % (t.year, sep, t.month, sep, t.day)
     if prec == "day":
         s = date
     elif prec == "hour":
-        s = date + " %02d" % t.hour
+        s = date + (" " + f()) % t.hour
     elif prec == "minute":
-        s = date + " %02d:%02d" % (t.hour, t.minute)
+        s = date + (" " + f() + ":" + f()) % (t.hour, t.minute)
     else:
-        s = date + " %02d:%02d:%02d" % (t.hour, t.minute, t.second)
+        s = date + (" " + f() + ":" + f() + ":" + f()) % (t.hour, t.minute, t.second)
     return s
 
 
@@ -156,6 +159,8 @@ def run_job(job):
                     res.cover("spelling", spelled)
                     res.cover("quoted", str(quoted))
                     if 0 < len(exp) < len(files):
+                        if not relative and re.search(r"(^|[-: ])\d([-: ]|$)", lit):
+                            res.count("literals_with_unpadded_field")
                         res.nt("%s|%s|%s|%s" % (tz, lit if not relative else lit + "@" + str(day0), op, quoted))
             # x between L1 and L2  ==  x >= L1 and x <= L2  (start of the first interval .. end of the second)
             if not relative:
